@@ -98,15 +98,16 @@ Definition on_host (h : str) (u : str) : bool :=
   same_site_rel u ||
   (match browser_host u with Some bh => str_eqb bh h | None => false end && negb (existsb is_ctl u)).
 
-(* the targets the property quantifies over: origin-form, or absolute-form that NAMES a host
-   (scheme "://" and then a non-empty authority).  "http:/x", "http:x" and "http:///x" name none:
-   the proxy routes them by the Host header and records them verbatim; no browser sends them. *)
+(* the targets the property quantifies over: origin-form, or absolute-form that NAMES a host:
+   scheme "://" and then an authority whose host part — read as a browser reads it, after any
+   user-info — is not empty.  "http:/x", "http:x", "http:///x" and "http://user@/x" name none: the
+   proxy routes them by the Host header and records them verbatim; no browser sends them. *)
 Definition after_scheme (t : str) : option str :=
   match get_scheme t with Some (sch, rest) => if nilb sch then None else Some rest | None => None end.
 Definition target_in_scope (t : str) : bool :=
   has_prefix t [47] ||
   match after_scheme t with
-  | Some (a :: b :: c :: _) => N.eqb a 47 && N.eqb b 47 && negb (memb c [47; 92; 63; 35])
+  | Some (a :: b :: rest) => N.eqb a 47 && N.eqb b 47 && negb (nilb (after_last_at (take_authority rest)))
   | _ => false
   end.
 
